@@ -88,6 +88,7 @@ structure GbRec where
 /-! ### the writer's choices -/
 
 structure RefLayout where
+  range : List Nat := []         -- the REFERENCE line itself (number, two blanks, range) may be wrapped
   authors : List Nat := []
   title : List Nat := []
   journal : List Nat := []
@@ -179,9 +180,13 @@ def locusLine (l : RLocus) (n : Nat) (ℓ : RecLayout) : Str :=
   c!"LOCUS" ++ gap ℓ 0 ++ l.name ++ gap ℓ 1 ++ ofNat n ++ c!" bp" ++ gap ℓ 2 ++ l.mol.text ++ gap ℓ 3
     ++ l.topo.text ++ gap ℓ 4 ++ divisionCodes.getD l.division [] ++ gap ℓ 5 ++ l.date
 
+/-- text of the REFERENCE line: the number and, after two blanks, the range -/
+def refHead (i : Nat) (r : RRef) : Str :=
+  ofNat (i + 1) ++ (if r.range = [] then [] else c!"  " ++ r.range)
+
 def refLines (i : Nat) (r : RRef) (ℓ : RefLayout) : List Str :=
-  (c!"REFERENCE   " ++ ofNat (i + 1) ++ (if r.range = [] then [] else c!"  " ++ r.range))
-    :: (optBlock c!"  AUTHORS" r.authors ℓ.authors ++ optBlock c!"  TITLE" r.title ℓ.title
+  block c!"REFERENCE" (refHead i r) ℓ.range
+    ++ (optBlock c!"  AUTHORS" r.authors ℓ.authors ++ optBlock c!"  TITLE" r.title ℓ.title
         ++ optBlock c!"  JOURNAL" r.journal ℓ.journal ++ optBlock c!"  PUBMED" r.pubmed ℓ.pubmed
         ++ optBlock c!"  REMARK" r.remark ℓ.remark)
 
@@ -293,13 +298,9 @@ def toSequence (r : GbRec) : Genbank.Sequence :=
 def isText (t : Str) : Bool :=
   t.all isPrint && t.head? != some ' ' && t.getLast? != some ' '
 
-def isNameChar (c : Char) : Bool := isLower c || isDigit c || c == '_'
-
-/-- lower-case locus name: a lower-case letter followed by lower-case letters, digits, '_' -/
-def isLocusName (s : Str) : Bool :=
-  match s with
-  | [] => false
-  | c :: _ => isLower c && s.all isNameChar
+/-- a locus name: a non-empty printable token without blanks (the property's lower-case names are
+among these; the parser takes the name by position, so its spelling does not matter) -/
+def isLocusName (s : Str) : Bool := s != [] && s.all (fun c => isPrint c && c != ' ')
 
 def isDateText (d : Str) : Bool :=
   match d with
@@ -349,70 +350,6 @@ def wf (r : GbRec) : Bool :=
 
 def WF (r : GbRec) : Prop := wf r = true
 instance (r : GbRec) : Decidable (WF r) := inferInstanceAs (Decidable (_ = _))
-
-/-! ### the four classes on which the parser is known to deviate (known findings)
-
-Each is a decidable predicate on (record, layout); the composition theorem is proved under their
-negation and each has a kernel-checked counterexample in `Props/C01.lean`. -/
-
-/-- first blank-delimited word -/
-def firstWord (s : Str) : Str := s.takeWhile (· != ' ')
-
-def refTrapWords : List Str :=
-  [c!"AUTHORS", c!"TITLE", c!"JOURNAL", c!"PUBMED", c!"REMARK", c!"LOCUS", c!"DEFINITION", c!"ACCESSION",
-   c!"VERSION", c!"KEYWORDS", c!"SOURCE", c!"REFERENCE", c!"FEATURES", c!"ORIGIN"]
-
-/-- continuation chunks (all but the first) of a wrapped text -/
-def contChunks (t : Str) (bs : List Nat) : List Str := (wrapText bs t).drop 1
-
-def refContChunks (r : RRef) (ℓ : RefLayout) : List Str :=
-  contChunks r.authors ℓ.authors ++ contChunks r.title ℓ.title ++ contChunks r.journal ℓ.journal
-    ++ contChunks r.pubmed ℓ.pubmed ++ contChunks r.remark ℓ.remark
-
-def refsContChunks : List RRef → List RefLayout → List Str
-  | [], _ => []
-  | r :: rs, ls => refContChunks r (ls.headD {}) ++ refsContChunks rs ls.tail
-
-def extrasContChunks : List (Str × Str) → List (List Nat) → List Str
-  | [], _ => []
-  | (_, t) :: es, ls => contChunks t (ls.headD []) ++ extrasContChunks es ls.tail
-
-/-- kf C01-firstword-dispatch: a continuation line of SOURCE starts with the word ORGANISM, or a
-continuation line inside / after a REFERENCE (up to FEATURES) starts with a sub-keyword or keyword word -/
-def firstWordTrap (r : GbRec) (ℓ : RecLayout) : Bool :=
-  (contChunks r.source ℓ.source).any (fun c => firstWord c == c!"ORGANISM")
-    || (refsContChunks r.refs ℓ.refs ++ (if r.refs = [] then [] else extrasContChunks r.extras ℓ.extras)).any
-        (fun c => refTrapWords.contains (firstWord c))
-
-/-- kf C01-multiline-loc-noqual: a feature other than the last has no qualifier and a location
-written on more than one line -/
-def locLagTrapAux : List RFeature → List FeatLayout → Bool
-  | [], _ => false
-  | [_], _ => false
-  | f :: g :: fs, ls =>
-    (f.quals = [] && (cutLoc (ls.headD {}).loc f.loc).length > 1) || locLagTrapAux (g :: fs) ls.tail
-
-def locLagTrap (r : GbRec) (ℓ : RecLayout) : Bool := locLagTrapAux r.features ℓ.feats
-
-/-- kf C01-continuation-slash: a continuation line of a qualifier value starts with '/' (the value is
-still inside its quotes, so the file is unambiguous for a reader that honours the quotes) -/
-def slashContTrapQ : List (Str × Str) → List (List Nat) → Bool
-  | [], _ => false
-  | (k, v) :: qs, ls =>
-    ((closeLast (valueChunks k v (ls.headD []))).drop 1).any (fun c => c.head? == some '/')
-      || slashContTrapQ qs ls.tail
-
-def slashContTrapAux : List RFeature → List FeatLayout → Bool
-  | [], _ => false
-  | f :: fs, ls => slashContTrapQ f.quals (ls.headD {}).quals || slashContTrapAux fs ls.tail
-
-def slashContTrap (r : GbRec) (ℓ : RecLayout) : Bool := slashContTrapAux r.features ℓ.feats
-
-/-- kf C01-locus-name-topology: the locus is called `linear` or `circular` and has the other topology -/
-def nameTopoTrapL (l : RLocus) : Bool :=
-  (l.name == c!"linear" && l.topo == .circular) || (l.name == c!"circular" && l.topo == .linear)
-
-def nameTopoTrap (r : GbRec) : Bool := nameTopoTrapL r.locus
 
 /-- "no line other than a record terminator ends in //" -/
 def noSlashEnd (r : GbRec) (ℓ : RecLayout) : Bool :=
